@@ -237,6 +237,37 @@ claim("C17", "Coq proof (training-set alignment, proposal rule, no repeat withou
       TRUST + " sklearn / scipy numerics are oracles; NaN acquisition values are outside the guarantee (documented example).", "DESIGN.md section 5, C17")
 
 
+# supplements added after the first claims were written (source translators, population iterate model)
+GEN_STOP = (" ALSO, on every run harness/translate_driver.py re-translates _stop_run.py (time_exceeded, score_exceeded, no_change, "
+            "StopRun.update/check) and _progress_bar.py statement by statement into Gallina (generated/DriverGen.v, fail-closed) and "
+            "proofs/DriverTie.v proves for ALL arguments that the generated definitions refine the model (check_tie, no_change_tie, "
+            "update_lvl0/1_tie): a source change that alters behaviour breaks a proof obligation of this property's theorem file "
+            "before any sampled input is needed.")
+EXTRA = {
+    "C12": GEN_STOP + " Theorems C12_source_score_exceeded_refines, C12_source_check_refines.",
+    "C13": GEN_STOP + " Theorems C13_source_no_change_is_rule (the TRANSLATED no_change is the documented rule), C13_source_never_raises, C13_source_check_refines.",
+    "C14": GEN_STOP + " Theorems C14_source_time_exceeded_refines, C14_source_check_refines.",
+    "C05": GEN_STOP + " Theorems C05_source_update_lvl0/lvl1_refines, C05_source_verbosity_paths_agree, C05_source_new2best_spec.",
+    "C16": (" ALSO, harness/translate_grid.py re-translates DiagonalGridSearchOptimizer.get_direction / grid_move / iterate and "
+            "OrthogonalGridSearchOptimizer.grid_move / iterate (for / while / while-True loops, fuel explicit) into generated/GridGen.v "
+            "on every run; proofs/GridTie.v proves they refine theories/Grid.v, and C16_source_diag_covers / C16_source_orth_covers "
+            "restate the coverage theorem for the GENERATED code (assumptions: no constraints, conv2pos is the identity inside the "
+            "box, conv.dim_sizes / search_space_size are the sizes and their product - each an observable the K/S-units compare)."),
+    "C08": (" ALSO: finding F-D5 is machine-checked against the code generated from diagonal_grid_search.py: "
+            "C08_source_diag_livelock_refuted (for EVERY amount of fuel the translated iterate does not return on a 1x4 space with "
+            "3/4 feasible). The iterate steps of ParticleSwarm / Spiral / DifferentialEvolution are modelled (theories/Pop.v) and "
+            "replayed step by step with exact constraint-evaluation counts (S-unit)."),
+    "C01": (" ALSO: the iterate steps of ParticleSwarmOptimizer, SpiralOptimization, DifferentialEvolutionOptimizer and the "
+            "recombination step of EvolutionStrategy / GeneticAlgorithm are modelled (theories/Pop.v; the float vectors - new "
+            "velocity, spiral point, mutant - are oracle tape entries recomputed by the harness) with closure theorems "
+            "C01_pso_iterate, C01_spiral_iterate, C01_de_iterate, C01_cross_or_climb (in box and feasible for every tape), tied "
+            "to /repo by an S-unit replaying every iteration step of real runs (position, draws consumed, constraint evaluations)."),
+    "C02": (" ALSO: C02_pso_iterate, C02_spiral_iterate, C02_de_iterate, C02_cross_or_climb (theories/Pop.v): the emitted position "
+            "of the population optimizers' iterate is feasible on every path (first candidate, constraint loop, move_climb fallback, "
+            "random restart), tied to /repo by the S-unit replaying every iteration step of real runs under coupled constraints."),
+}
+
+
 def main():
     props = [json.loads(l) for l in open(os.path.join(VERIF, "properties.jsonl"))]
     ids = [p["id"] for p in props]
@@ -245,6 +276,9 @@ def main():
         if pid not in CLAIMS:
             continue
         tech, text, note, ref = CLAIMS[pid]
+        text = text + EXTRA.get(pid, "")
+        if pid in EXTRA:
+            tech = tech + " + source translator with machine-checked refinement (generated Gallina)" if pid not in ("C01", "C02", "C08") or pid == "C08" else tech
         checks.append(dict(
             property_id=pid,
             quick_cmd="python3 harness/check.py %s --tier quick" % pid,
@@ -268,6 +302,8 @@ def main():
                    source_commits=[], add_only=True),
         engines=[
             dict(name="coq-model", path="/verif/coq", serves_properties=sorted(CLAIMS), kind_free_text="hand-written Gallina model (theories/), lemmas (proofs/), property theorems (props/Prop_Cxx.v, each with Print Assumptions)"),
+            dict(name="source-translators", path="/verif/harness/pytrans.py", serves_properties=["C05", "C08", "C12", "C13", "C14", "C15", "C16", "C18", "C19"],
+                 kind_free_text="translate_facades.py (C18 data), translate_core.py (tracker layer: C15, C19), translate_driver.py (_stop_run.py, _progress_bar.py: C05, C12-C14), translate_grid.py (grid search: C16, C08): Gallina regenerated from /repo's AST on every run, refinement to the hand model proved in proofs/*Tie.v"),
             dict(name="correspondence", path="/verif/harness", serves_properties=sorted(CLAIMS), kind_free_text="K/D/S units: implementation and model run on the same inputs; the model is evaluated inside Coq (generated cases files, vm_compute)"),
             dict(name="monitors", path="/verif/harness/props", serves_properties=sorted(CLAIMS), kind_free_text="direct Python encodings of each property used to find concrete failing inputs (replays); never the proof"),
         ],
